@@ -32,7 +32,7 @@ MANIFEST = {
     "note": "Trusted: the harness' own splice + per-line regexes. Timestamp line is not compared.",
     "technique": "property-based round-trip testing with boundary-targeted line lengths (Hypothesis, 16 shards)",
 }
-FUZZ = {"procs": 12, "runs": 10000, "timeout": 3000}
+FUZZ = {"procs": 12, "runs": 10000, "timeout": 1500}
 ASSUMPTIONS = ["attributes outside the format's ranges (|chg|>15, rad>3) are outside the domain"]
 
 
